@@ -1,1 +1,177 @@
-//! oracle for gost — to be written from the specification
+//! GOST 28147-89 / GOST R 34.12-2015 "Magma", written from the standards' description.
+//!
+//! 64-bit block a = a1 || a0 (two 32-bit halves), 256-bit key K = K1 || ... || K8 (32-bit words), all words
+//! big-endian as in GOST R 34.12-2015 (and as the `magma` crate does for every S-box set).
+//!   t(a)      : the 32-bit word is split into eight 4-bit nibbles a7 || ... || a0 (a0 least significant),
+//!               nibble i is replaced by pi_i(a_i)
+//!   g[k](a)   = (t(a [+] k)) <<< 11                       ([+] = addition mod 2^32)
+//!   G[k](a1, a0)  = (a0, g[k](a0) ^ a1)
+//!   G*[k](a1, a0) = (g[k](a0) ^ a1) || a0
+//!   round keys: K1..K8, K1..K8, K1..K8, K8..K1;  E = G*[K32] G[K31] ... G[K1];  D = G*[K1] G[K2] ... G[K32]
+//! The substitution tables pi_0..pi_7 are parameters.  The bundled sets are data (no generating formula).
+
+/// Eight substitution tables; `sb[i]` is applied to nibble `i` (bits 4i..4i+3).
+pub type Sboxes = [[u8; 16]; 8];
+
+/// Tc26 (data copied from magma/src/sboxes.rs, `Tc26::SBOX`)
+pub const TC26: Sboxes = [
+    [12, 4, 6, 2, 10, 5, 11, 9, 14, 8, 13, 7, 0, 3, 15, 1],
+    [6, 8, 2, 3, 9, 10, 5, 12, 1, 14, 4, 7, 11, 13, 0, 15],
+    [11, 3, 5, 8, 2, 15, 10, 13, 14, 1, 7, 4, 12, 9, 6, 0],
+    [12, 8, 2, 1, 13, 4, 15, 6, 7, 0, 10, 5, 3, 14, 9, 11],
+    [7, 15, 5, 10, 8, 1, 6, 13, 0, 9, 3, 14, 11, 4, 2, 12],
+    [5, 13, 15, 6, 9, 2, 12, 10, 11, 7, 8, 1, 4, 3, 14, 0],
+    [8, 14, 2, 5, 6, 9, 1, 12, 15, 4, 11, 0, 13, 10, 3, 7],
+    [1, 7, 14, 13, 0, 5, 8, 3, 4, 15, 10, 6, 9, 12, 11, 2],
+];
+
+/// TestSbox (data copied from magma/src/sboxes.rs, `TestSbox::SBOX`)
+pub const TEST: Sboxes = [
+    [4, 10, 9, 2, 13, 8, 0, 14, 6, 11, 1, 12, 7, 15, 5, 3],
+    [14, 11, 4, 12, 6, 13, 15, 10, 2, 3, 8, 1, 0, 7, 5, 9],
+    [5, 8, 1, 13, 10, 3, 4, 2, 14, 15, 12, 7, 6, 0, 9, 11],
+    [7, 13, 10, 1, 0, 8, 9, 15, 14, 4, 6, 12, 11, 2, 5, 3],
+    [6, 12, 7, 1, 5, 15, 13, 8, 4, 10, 9, 14, 0, 3, 11, 2],
+    [4, 11, 10, 0, 7, 2, 1, 13, 3, 6, 8, 5, 9, 12, 15, 14],
+    [13, 11, 4, 1, 3, 15, 5, 9, 0, 10, 14, 7, 6, 8, 2, 12],
+    [1, 15, 13, 0, 5, 7, 10, 4, 9, 2, 3, 14, 6, 11, 8, 12],
+];
+
+/// CryptoProA (data copied from magma/src/sboxes.rs, `CryptoProA::SBOX`)
+pub const CRYPTOPRO_A: Sboxes = [
+    [9, 6, 3, 2, 8, 11, 1, 7, 10, 4, 14, 15, 12, 0, 13, 5],
+    [3, 7, 14, 9, 8, 10, 15, 0, 5, 2, 6, 12, 11, 4, 13, 1],
+    [14, 4, 6, 2, 11, 3, 13, 8, 12, 15, 5, 10, 0, 7, 1, 9],
+    [14, 7, 10, 12, 13, 1, 3, 9, 0, 2, 11, 4, 15, 8, 5, 6],
+    [11, 5, 1, 9, 8, 13, 15, 0, 14, 4, 2, 3, 12, 7, 10, 6],
+    [3, 10, 13, 12, 1, 2, 0, 11, 7, 5, 9, 4, 8, 15, 14, 6],
+    [1, 13, 2, 9, 7, 10, 6, 0, 8, 12, 4, 5, 15, 3, 11, 14],
+    [11, 10, 15, 5, 0, 12, 14, 8, 6, 2, 3, 9, 1, 7, 13, 4],
+];
+
+/// CryptoProB (data copied from magma/src/sboxes.rs, `CryptoProB::SBOX`)
+pub const CRYPTOPRO_B: Sboxes = [
+    [8, 4, 11, 1, 3, 5, 0, 9, 2, 14, 10, 12, 13, 6, 7, 15],
+    [0, 1, 2, 10, 4, 13, 5, 12, 9, 7, 3, 15, 11, 8, 6, 14],
+    [14, 12, 0, 10, 9, 2, 13, 11, 7, 5, 8, 15, 3, 6, 1, 4],
+    [7, 5, 0, 13, 11, 6, 1, 2, 3, 10, 12, 15, 4, 14, 9, 8],
+    [2, 7, 12, 15, 9, 5, 10, 11, 1, 4, 0, 13, 6, 8, 14, 3],
+    [8, 3, 2, 6, 4, 13, 14, 11, 12, 1, 7, 15, 10, 0, 9, 5],
+    [5, 2, 10, 11, 9, 1, 12, 3, 7, 4, 13, 0, 6, 15, 8, 14],
+    [0, 4, 11, 14, 8, 3, 7, 1, 10, 2, 9, 6, 15, 13, 5, 12],
+];
+
+/// CryptoProC (data copied from magma/src/sboxes.rs, `CryptoProC::SBOX`)
+pub const CRYPTOPRO_C: Sboxes = [
+    [1, 11, 12, 2, 9, 13, 0, 15, 4, 5, 8, 14, 10, 7, 6, 3],
+    [0, 1, 7, 13, 11, 4, 5, 2, 8, 14, 15, 12, 9, 10, 6, 3],
+    [8, 2, 5, 0, 4, 9, 15, 10, 3, 7, 12, 13, 6, 14, 1, 11],
+    [3, 6, 0, 1, 5, 13, 10, 8, 11, 2, 9, 7, 14, 15, 12, 4],
+    [8, 13, 11, 0, 4, 5, 1, 2, 9, 3, 12, 14, 6, 15, 10, 7],
+    [12, 9, 11, 1, 8, 14, 2, 4, 7, 3, 6, 5, 10, 0, 15, 13],
+    [10, 9, 6, 8, 13, 14, 2, 0, 15, 3, 5, 11, 4, 1, 12, 7],
+    [7, 4, 0, 5, 10, 2, 15, 14, 12, 6, 1, 11, 13, 9, 3, 8],
+];
+
+/// CryptoProD (data copied from magma/src/sboxes.rs, `CryptoProD::SBOX`)
+pub const CRYPTOPRO_D: Sboxes = [
+    [10, 4, 5, 6, 8, 1, 3, 7, 13, 12, 14, 0, 9, 2, 11, 15],
+    [5, 15, 4, 0, 2, 13, 11, 9, 1, 7, 6, 3, 12, 14, 10, 8],
+    [7, 15, 12, 14, 9, 4, 1, 0, 3, 11, 5, 2, 6, 10, 8, 13],
+    [4, 10, 7, 12, 0, 15, 2, 8, 14, 1, 6, 5, 13, 11, 9, 3],
+    [7, 6, 4, 11, 9, 12, 2, 10, 1, 8, 0, 14, 15, 13, 3, 5],
+    [7, 6, 2, 4, 13, 9, 15, 0, 10, 1, 5, 11, 8, 14, 12, 3],
+    [13, 14, 4, 1, 7, 0, 5, 10, 3, 12, 8, 15, 6, 2, 9, 11],
+    [1, 3, 10, 9, 5, 11, 4, 15, 8, 6, 7, 14, 13, 0, 2, 12],
+];
+
+/// A set that is not bundled with the crate (eight pseudo-random permutations of 0..15, generated once with a
+/// fixed seed): stands for a "user-supplied" set in the harnesses.
+pub const USER_A: Sboxes = [
+    [10, 12, 13, 11, 6, 3, 14, 1, 8, 4, 7, 2, 5, 15, 9, 0],
+    [14, 11, 7, 3, 4, 13, 5, 0, 8, 9, 2, 10, 1, 12, 6, 15],
+    [1, 13, 12, 7, 6, 3, 15, 11, 8, 2, 4, 0, 14, 10, 5, 9],
+    [5, 0, 6, 1, 8, 14, 15, 2, 3, 7, 13, 4, 12, 11, 9, 10],
+    [13, 6, 15, 14, 7, 5, 4, 12, 10, 0, 11, 8, 1, 2, 3, 9],
+    [10, 4, 2, 9, 6, 13, 5, 15, 7, 1, 8, 12, 3, 11, 14, 0],
+    [15, 14, 8, 9, 6, 12, 7, 3, 10, 5, 0, 2, 1, 11, 4, 13],
+    [7, 13, 11, 3, 12, 9, 5, 2, 14, 10, 8, 6, 0, 4, 1, 15],
+];
+
+/// A user-supplied set whose tables are not permutations (arbitrary 4-bit to 4-bit tables).
+pub const USER_B: Sboxes = [
+    [1, 7, 10, 11, 7, 6, 5, 10, 9, 4, 10, 4, 2, 15, 0, 10],
+    [6, 0, 10, 0, 6, 14, 7, 1, 2, 9, 7, 4, 3, 0, 12, 14],
+    [7, 12, 15, 15, 7, 11, 0, 3, 12, 11, 15, 15, 11, 5, 13, 11],
+    [8, 1, 14, 12, 9, 13, 5, 12, 8, 14, 13, 1, 3, 1, 12, 6],
+    [10, 3, 3, 7, 7, 2, 3, 4, 15, 3, 10, 9, 6, 2, 4, 8],
+    [12, 1, 10, 0, 8, 7, 8, 4, 4, 15, 4, 8, 14, 1, 4, 15],
+    [9, 6, 9, 0, 5, 10, 5, 11, 5, 5, 1, 6, 0, 6, 0, 11],
+    [10, 8, 8, 10, 8, 3, 0, 10, 10, 1, 1, 2, 13, 3, 5, 15],
+];
+
+/// t: nibble-wise substitution.
+pub fn t(sb: &Sboxes, a: u32) -> u32 {
+    let mut out = 0u32;
+    let mut i = 0;
+    while i < 8 {
+        let nib = ((a >> (4 * i)) & 0xF) as usize;
+        out |= ((sb[i][nib] & 0xF) as u32) << (4 * i);
+        i += 1;
+    }
+    out
+}
+
+/// g[k](a) = t(a + k mod 2^32) <<< 11
+pub fn g(sb: &Sboxes, a: u32, k: u32) -> u32 {
+    t(sb, a.wrapping_add(k)).rotate_left(11)
+}
+
+/// Index (0-based, into K1..K8) of the round key of round `r` (0-based, 0..32) of the encryption.
+pub fn key_index(r: usize) -> usize {
+    if r < 24 {
+        r % 8
+    } else {
+        7 - (r % 8)
+    }
+}
+
+fn be32(b: &[u8], o: usize) -> u32 {
+    ((b[o] as u32) << 24) | ((b[o + 1] as u32) << 16) | ((b[o + 2] as u32) << 8) | (b[o + 3] as u32)
+}
+
+/// The 32-round network with the round function `gf(a, k)` as a parameter (leaf: `SboxExt::g` of the crate).
+pub fn crypt_with<G: Fn(u32, u32) -> u32>(key: &[u8; 32], block: &[u8; 8], decrypt: bool, gf: G) -> [u8; 8] {
+    let mut k = [0u32; 8];
+    let mut i = 0;
+    while i < 8 {
+        k[i] = be32(key, 4 * i);
+        i += 1;
+    }
+    let mut a1 = be32(block, 0);
+    let mut a0 = be32(block, 4);
+    let mut r = 0;
+    while r < 32 {
+        let rk = if decrypt { k[key_index(31 - r)] } else { k[key_index(r)] };
+        let n = gf(a0, rk) ^ a1;
+        if r < 31 {
+            // G[k](a1, a0) = (a0, g[k](a0) ^ a1)
+            a1 = a0;
+            a0 = n;
+        } else {
+            // G*[k](a1, a0) = (g[k](a0) ^ a1) || a0
+            a1 = n;
+        }
+        r += 1;
+    }
+    let x = a1.to_be_bytes();
+    let y = a0.to_be_bytes();
+    [x[0], x[1], x[2], x[3], y[0], y[1], y[2], y[3]]
+}
+
+pub fn encrypt(sb: &Sboxes, key: &[u8; 32], block: &[u8; 8]) -> [u8; 8] {
+    crypt_with(key, block, false, |a, k| g(sb, a, k))
+}
+pub fn decrypt(sb: &Sboxes, key: &[u8; 32], block: &[u8; 8]) -> [u8; 8] {
+    crypt_with(key, block, true, |a, k| g(sb, a, k))
+}
